@@ -311,6 +311,10 @@ func c05Sequences(c *Ctx) {
 		c.Case(int64(i), func(k *K) {
 			r := k.Rand()
 			nt := r.IntN(7)
+			if r.IntN(60) == 0 { // many trees in one stream
+				nt = 300 + r.IntN(2000)
+				k.Count("many_tree_streams", 1)
+			}
 			var text bytes.Buffer
 			var want []item
 			text.WriteString(pick(r, treeSeparators))
@@ -338,7 +342,7 @@ func c05Sequences(c *Ctx) {
 				text.WriteString(pick(r, treeSeparators))
 			}
 			k.Count("held_marshal_results", int64(len(held)))
-			k.Input("text", text.Bytes())
+			k.Input("text", func() string { return describeText(text.Bytes()) })
 			got, over := collect(codecByName("newick").seq(bytes.NewReader(text.Bytes())), nt+3)
 			if over || !sameTrace(got, want) {
 				k.Failf("sequence", "sequence of %d trees decoded differently:\n got  %s\n want %s", nt, traceString(got), traceString(want))
